@@ -886,9 +886,11 @@ func (m *Machine) dischargeNP(list []npRec) {
 	}
 	if len(list) == 1 {
 		p := list[0]
-		m.checkVC(p.class, p.label, p.pos, p.c)
-		m.solver.Assert(Not(p.c))
-		m.assumeN++
+		vc := m.checkVC(p.class, p.label, p.pos, p.c)
+		if vc.Result != "unsat" && vc.Result != "trivial" || len(vc.KF) > 0 {
+			m.solver.Assert(Not(p.c))
+			m.assumeN++
+		}
 		return
 	}
 	start := time.Now()
@@ -903,8 +905,7 @@ func (m *Machine) dischargeNP(list []npRec) {
 		for _, p := range list {
 			m.vcs = append(m.vcs, &VC{Harness: m.harness, Class: p.class, Label: p.label, Pos: p.pos, Result: "unsat", Ms: ms / float64(len(list)), Size: p.c.Size(), Batched: len(list)})
 		}
-		m.solver.Assert(Not(any))
-		m.assumeN++
+		// unsat: the negation is implied by the assumptions already made, nothing to add
 		return
 	}
 	h := len(list) / 2
